@@ -526,23 +526,30 @@ theorem assignAll_eq (v : Val) : ∀ (ts : List Target) (σ : Store) (w : W), Co
     simp only [assignAll]
     exact bind_congr (assign_eq cfg P py hp t v σ w h.1) fun σ1 w => assignAll_eq v ts σ1 w h.2
 
+mutual
+theorem delete1_eq : ∀ (t : Target) (σ : Store) (w : W), ConfT cfg t = true →
+    delete1 cfg P t σ w = delete1 py P t σ w
+  | .name _, _, _, _ => by simp [delete1]
+  | .sub v i, σ, w, h => by
+    simp only [ConfT, Bool.and_eq_true] at h
+    simp only [delete1]
+    exact bind_congr (eval_eq cfg P py hp v σ w h.1) fun a w =>
+      bind_congr (eval_eq cfg P py hp i a.2 w h.2) fun _ _ => rfl
+  | .attr _ _, _, _, _ => by simp [delete1]
+  | .tup l before star after, σ, w, h => by
+    simp only [ConfT, Bool.and_eq_true] at h
+    simp only [delete1]
+    cases star with
+    | some x => rfl
+    | none => exact bind_congr (deleteAll_eq before σ w h.1.2) fun σ1 w => deleteAll_eq after σ1 w h.2
 theorem deleteAll_eq : ∀ (ts : List Target) (σ : Store) (w : W), ConfTs cfg ts = true →
     deleteAll cfg P ts σ w = deleteAll py P ts σ w
   | [], _, _, _ => by simp [deleteAll]
   | t :: ts, σ, w, h => by
     simp only [ConfTs, Bool.and_eq_true] at h
     simp only [deleteAll]
-    refine bind_congr ?_ fun σ1 w => deleteAll_eq ts σ1 w h.2
-    cases t with
-    | name x => simp [delete1]
-    | sub v i =>
-      have := h.1
-      simp only [ConfT, Bool.and_eq_true] at this
-      simp only [delete1]
-      exact bind_congr (eval_eq cfg P py hp v σ w this.1) fun a w =>
-        bind_congr (eval_eq cfg P py hp i a.2 w this.2) fun _ _ => rfl
-    | attr v a => simp [delete1]
-    | tup l b s a => simp [delete1]
+    exact bind_congr (delete1_eq t σ w h.1) fun σ1 w => deleteAll_eq ts σ1 w h.2
+end
 
 theorem applyAug_eq (hi : cfg.augInPlace = true ∨ NoInPlace P) (op : Nat) (a b : Val) (w : W) :
     applyAug cfg P op a b w = applyAug py P op a b w := by
